@@ -490,7 +490,26 @@ func (ft *faulter) oneof(root *sRoot, doc *jval, pos string) {
 				}
 			}
 		})
+		// the contradicting "!type" AFTER the arm key (the decoder must not only check while it reads the key)
+		ft.add("type-mismatch", "oneof-type-last", pos, func() {
+			var rest []jmember
+			for _, m := range doc.members {
+				if m.key != "!type" {
+					rest = append(rest, m)
+				}
+			}
+			doc.members = append(rest, jmember{key: "!type", keyRaw: `"!type"`, val: jstr(o.json)})
+		})
 	}
+	ft.add("type-mismatch", "oneof-type-last", pos, func() {
+		var rest []jmember
+		for _, m := range doc.members {
+			if m.key != "!type" {
+				rest = append(rest, m)
+			}
+		}
+		doc.members = append(rest, jmember{key: "!type", keyRaw: `"!type"`, val: jstr("zzNoSuchArm")})
+	})
 	ft.add("type-mismatch", "oneof", pos, func() {
 		for i := range doc.members {
 			if doc.members[i].key == "!type" {
